@@ -8,6 +8,17 @@ mod verif_search {
     use super::*;
     use std::{collections::BTreeMap, format, string::String, vec::Vec, println};
 
+    /// A panic inside the real code is a failure of the contract too: report it with the operation sequence.
+    fn guarded<F: FnOnce() -> Option<String>>(f: F) -> Option<String> {
+        match std::panic::catch_unwind(std::panic::AssertUnwindSafe(f)) {
+            Ok(r) => r,
+            Err(p) => {
+                let msg = p.downcast_ref::<&str>().map(|s| String::from(*s)).or_else(|| p.downcast_ref::<String>().cloned()).unwrap_or_default();
+                Some(format!("the real code panicked: {msg}"))
+            }
+        }
+    }
+
     #[derive(Clone, Copy, Debug, PartialEq)]
     enum Op { Insert(usize, usize), SRemove(usize), CRemove(usize), SOrInsert(usize, usize), COrInsert(usize, usize), Clear }
 
@@ -99,7 +110,7 @@ mod verif_search {
     fn verif_search_u11() {
         if let Ok(fixed) = std::env::var("VERIF_OPS") {
             let ops = parse(&fixed);
-            if let Some(why) = run(&ops) {
+            if let Some(why) = guarded(|| run(&ops)) {
                 println!("VERIF-COUNTEREXAMPLE policy=- ops={} :: {why}", show(&ops));
                 panic!("contract violated on the real code: {why}");
             }
@@ -111,7 +122,7 @@ mod verif_search {
             let mut idx = std::vec![0usize; len];
             loop {
                 let seq: Vec<Op> = idx.iter().map(|&k| ops[k]).collect();
-                if let Some(why) = run(&seq) {
+                if let Some(why) = guarded(|| run(&seq)) {
                     println!("VERIF-COUNTEREXAMPLE policy=- ops={} :: {why}", show(&seq));
                     panic!("contract violated on the real code: {why}");
                 }
